@@ -180,6 +180,14 @@ func isMarkPrologue(info *types.Info, m *opMethod) (bool, string) {
 			return false, fmt.Sprintf("operand %s is not tested for marks in the prologue condition", op.Name())
 		}
 	}
+	// all operands are tested at the same depth
+	depth := ""
+	for _, op := range m.Operands {
+		if depth != "" && tested[op] != depth {
+			return false, fmt.Sprintf("operands are tested at different depths (%s uses %s): the method either tolerates nested marks on all operands or on none", op.Name(), strings.TrimPrefix(tested[op], "cty.Value."))
+		}
+		depth = tested[op]
+	}
 	// body: X', m := X.Unmark()/UnmarkDeep() per operand, then return X'.M(args').WithMarks(all m)
 	unmarked := map[types.Object]types.Object{} // original operand → unmarked local
 	markVar := map[types.Object]types.Object{}  // original operand → marks local
@@ -205,6 +213,10 @@ func isMarkPrologue(info *types.Info, m *opMethod) (bool, string) {
 			// deep test must be paired with deep unmark
 			if tested[src] == "cty.Value.ContainsMarked" && k != "cty.Value.UnmarkDeep" {
 				return false, fmt.Sprintf("operand %s is tested with ContainsMarked but only shallowly unmarked", src.Name())
+			}
+			// ... and the converse: a deep unmark means the body cannot cope with nested marks, so the test must be deep too
+			if k == "cty.Value.UnmarkDeep" && tested[src] != "cty.Value.ContainsMarked" {
+				return false, fmt.Sprintf("operand %s is deep-unmarked but only tested with IsMarked: nested marks on it reach the body when no operand is marked at the top", src.Name())
 			}
 			l0, _ := s.Lhs[0].(*ast.Ident)
 			l1, _ := s.Lhs[1].(*ast.Ident)
